@@ -1,5 +1,5 @@
 def extend(add, NA, SIMNOTE):
-    for prop in ('C04', 'C11', 'C19'):
+    for prop in ('C04', 'C19'):
         NA[prop] = 'TEMPORARY: simulation check designed (DESIGN.md section 4) but not built yet; will be claimed once the check exists.'
     add('C14', 'fault_enumeration',
         'Seeded histories of write_env / crash at byte k / short writes with EIO or ENOSPC / failing opens / direct damage / restart / read_env judged against a reference model of the per-task files, '
@@ -7,3 +7,9 @@ def extend(add, NA, SIMNOTE):
         'The truncation dimension is swept completely for the sampled files; payloads and fault sequences are sampled.',
         'Trusted: the crash model (a killed sequential writer leaves a byte prefix, an empty or a NUL-filled file), the fault seam around open() in vsim/faultfs.py, pickle. Bit flips that still unpickle are out of scope (no checksum in the format, none claimed).',
         'deterministic simulation of crash points and I/O faults on the environment files + exhaustive truncation enumeration', 'DESIGN.md 4 C14', 'vsim-faultfs')
+    add('C11', 'fault_enumeration',
+        'Crash points of the listing writer are enumerated: quick = every byte offset inside the end-flag lines, a sample of the other lines the scanner interprets and 300 random offsets per listing; '
+        'thorough = EVERY byte offset of every example listing and of synthetic 3-edition listings. Each prefix is opened and every edition found is parsed and compared (numpy-aware deep equality) with the same edition of the complete listing parsed in a fresh process; '
+        'seeded histories of 8-30 (listing, offset) pairs over the whole corpus in one reader process cover "whatever was parsed earlier in the same process".',
+        'Trusted: the crash model (byte prefix), the deep comparison in vsim/deepeq.py, the narrow relaxations listed in the evidence assumptions (run_data describes the whole file; a time printed after the end flag may be missing but not different). The corpus is the shipped examples plus synthetic multi-edition listings; other listing layouts are not covered.',
+        'deterministic simulation of writer crash points (byte-prefix enumeration) with fresh-process reference parses', 'DESIGN.md 4 C11', 'vsim-faultfs')
